@@ -418,6 +418,12 @@ type result struct {
 }
 
 func classOf(r dv.Resp) result {
+	// an answer of the harness, not of the server (dv.Do could not build the request): never take
+	// it for a refusal by DVID
+	if r.Status == 400 && strings.HasPrefix(string(r.Body), "parse \"") && strings.Contains(string(r.Body), "net/url:") {
+		fmt.Fprintf(os.Stderr, "c07: request was not sent: %s\n", r.Body)
+		os.Exit(3)
+	}
 	switch r.Class() {
 	case "ok":
 		return result{"ok", string(r.Body)}
@@ -435,8 +441,27 @@ func errRes(err error) result {
 	return result{"ok", ""}
 }
 
+// urlRef writes a version reference the way an HTTP client must put it into a URL path: the bytes
+// that cannot stand in a URL (control characters, DEL) or that would end or re-interpret the path
+// ('%', '?', '#') are percent-encoded, so that the router sees exactly the reference meant (it
+// matches on the decoded path).  Without this, net/http refuses to build the request and the
+// server is never asked.
+func urlRef(s string) string {
+	var b strings.Builder
+	for i := 0; i < len(s); i++ {
+		c := s[i]
+		if c < 0x20 || c == 0x7f || c == '%' || c == '?' || c == '#' {
+			fmt.Fprintf(&b, "%%%02X", c)
+		} else {
+			b.WriteByte(c)
+		}
+	}
+	return b.String()
+}
+
 func (w *world) exec(rq Req, sn *Snap) result {
 	us := w.str(rq.U)
+	up := urlRef(us) // the same reference as a client has to write it in a URL path
 	switch rq.Kind {
 	case "newrepo":
 		m := map[string]string{"alias": "a", "description": "d"}
@@ -448,19 +473,19 @@ func (w *world) exec(rq Req, sn *Snap) result {
 		}
 		return classOf(dv.PostJSON("/api/repos", m))
 	case "commit":
-		return classOf(dv.PostJSON("/api/node/"+us+"/commit", map[string]interface{}{"note": "c"}))
+		return classOf(dv.PostJSON("/api/node/"+up+"/commit", map[string]interface{}{"note": "c"}))
 	case "newversion":
-		return classOf(dv.PostJSON("/api/node/"+us+"/newversion", map[string]string{"note": "v", "uuid": w.str(rq.Assign)}))
+		return classOf(dv.PostJSON("/api/node/"+up+"/newversion", map[string]string{"note": "v", "uuid": w.str(rq.Assign)}))
 	case "branch":
-		return classOf(dv.PostJSON("/api/node/"+us+"/branch", map[string]string{"note": "b", "branch": w.str(rq.Branch), "uuid": w.str(rq.Assign)}))
+		return classOf(dv.PostJSON("/api/node/"+up+"/branch", map[string]string{"note": "b", "branch": w.str(rq.Branch), "uuid": w.str(rq.Assign)}))
 	case "tag":
-		return classOf(dv.PostJSON("/api/node/"+us+"/tag", map[string]string{"note": "t", "tag": w.str(rq.Tag)}))
+		return classOf(dv.PostJSON("/api/node/"+up+"/tag", map[string]string{"note": "t", "tag": w.str(rq.Tag)}))
 	case "merge":
 		ps := make([]string, len(rq.Parents))
 		for i, p := range rq.Parents {
 			ps[i] = w.str(p)
 		}
-		return classOf(dv.PostJSON("/api/repo/"+us+"/merge", map[string]interface{}{"mergeType": rq.MType, "note": "m", "parents": ps}))
+		return classOf(dv.PostJSON("/api/repo/"+up+"/merge", map[string]interface{}{"mergeType": rq.MType, "note": "m", "parents": ps}))
 	case "resolve":
 		ps := make([]string, len(rq.Parents))
 		for i, p := range rq.Parents {
@@ -470,15 +495,15 @@ func (w *world) exec(rq Req, sn *Snap) result {
 		if data == nil {
 			data = []string{}
 		}
-		return classOf(dv.PostJSON("/api/repo/"+us+"/resolve", map[string]interface{}{"data": data, "note": "r", "parents": ps}))
+		return classOf(dv.PostJSON("/api/repo/"+up+"/resolve", map[string]interface{}{"data": data, "note": "r", "parents": ps}))
 	case "note":
-		return classOf(dv.PostJSON("/api/node/"+us+"/note", map[string]string{"note": "n"}))
+		return classOf(dv.PostJSON("/api/node/"+up+"/note", map[string]string{"note": "n"}))
 	case "log":
-		return classOf(dv.PostJSON("/api/node/"+us+"/log", map[string][]string{"log": {"l"}}))
+		return classOf(dv.PostJSON("/api/node/"+up+"/log", map[string][]string{"log": {"l"}}))
 	case "repolog":
-		return classOf(dv.PostJSON("/api/repo/"+us+"/log", map[string][]string{"log": {"l"}}))
+		return classOf(dv.PostJSON("/api/repo/"+up+"/log", map[string][]string{"log": {"l"}}))
 	case "newdata":
-		return classOf(dv.PostJSON("/api/repo/"+us+"/instance", map[string]string{"typename": rq.Type, "dataname": rq.Name}))
+		return classOf(dv.PostJSON("/api/repo/"+up+"/instance", map[string]string{"typename": rq.Type, "dataname": rq.Name}))
 	case "rename":
 		// server/rpc.go "repo <uuid> rename <old> <new> <passcode>"
 		uuid, _, err := datastore.MatchingUUID(us)
@@ -534,7 +559,7 @@ func (w *world) exec(rq Req, sn *Snap) result {
 		return result{"aux", ""}
 	case "putkey":
 		// auxiliary: key-value content so that resolve meets real conflicts; not a repo-level request
-		dv.Post("/api/node/"+us+"/"+rq.Name+"/key/"+rq.Key, []byte("v"+us))
+		dv.Post("/api/node/"+up+"/"+rq.Name+"/key/"+rq.Key, []byte("v"+us))
 		return result{"aux", ""}
 	}
 	panic("unknown request kind " + rq.Kind)
@@ -653,11 +678,11 @@ func (w *world) reqTerm(rq Req, before, after *Snap, resolvedParents []string) s
 type seqOut struct {
 	term      string
 	stepTerms []string
-	steps   []Req
-	nReq    int
-	classes map[string]int
-	kinds   map[string]int
-	maxNode int
+	steps     []Req
+	nReq      int
+	classes   map[string]int
+	kinds     map[string]int
+	maxNode   int
 }
 
 // next yields the request to run given the current snapshot (generator or replay list)
@@ -818,7 +843,9 @@ func (g *gen) ref(sn *Snap, n Node) SX {
 		return P(n.VersionID, 8+g.rng.Intn(10))
 	default:
 		rv := rootVersion(sn, n.Repo)
-		if rv < 0 || !isHead(sn, n) || strings.ContainsAny(n.Branch, ":~") {
+		// a name with ':' or '~' is not addressable as root:branch, and one with '/' cannot be
+		// written into a URL path (the router splits the decoded path at it)
+		if rv < 0 || !isHead(sn, n) || strings.ContainsAny(n.Branch, ":~/") {
 			return T(n.VersionID)
 		}
 		b := n.Branch
@@ -1519,6 +1546,13 @@ func corpus() [][]Req {
 			{Kind: "commit", U: T(1)}, {Kind: "newversion", U: T(1), Assign: L("")}, {Kind: "restart"},
 			{Kind: "branch", U: T(1), Branch: L("r"), Assign: L("")}, {Kind: "newrepo"}, {Kind: "restart"}, {Kind: "commit", U: T(2)},
 			{Kind: "newdata", U: T(3), Type: "keyvalue", Name: "d1"}, {Kind: "restart"}, {Kind: "newdata", U: T(3), Type: "keyvalue", Name: "d2"}},
+		// a repo deletion survives a restart: the deleted uuids and version ids stay unknown (also by
+		// prefix), and a deleted uuid used again as a root has exactly one version id afterwards
+		{{Kind: "newrepo"}, {Kind: "commit", U: T(1)}, {Kind: "newversion", U: T(1), Assign: L("")}, {Kind: "newrepo"},
+			{Kind: "delrepo", U: T(1)}, {Kind: "restart"},
+			{Kind: "repolog", U: T(3)}, {Kind: "note", U: T(2)}, {Kind: "commit", U: P(1, 9)},
+			{Kind: "newrepo", Root: sp(T(2))}, {Kind: "restart"},
+			{Kind: "commit", U: T(2)}, {Kind: "newversion", U: T(2), Assign: T(1)}, {Kind: "restart"}, {Kind: "commit", U: T(3)}},
 		// parents from two repos: refused whichever comes first
 		{{Kind: "newrepo"}, {Kind: "commit", U: T(1)}, {Kind: "newversion", U: T(1), Assign: L("")}, {Kind: "commit", U: T(2)},
 			{Kind: "newrepo"}, {Kind: "commit", U: T(3)},
@@ -1546,7 +1580,11 @@ func corpus() [][]Req {
 			{Kind: "branch", U: T(1), Branch: L("a:b"), Assign: L("")}, {Kind: "branch", U: T(1), Branch: L("x~1"), Assign: L("")},
 			{Kind: "branch", U: T(1), Branch: L("b1"), Assign: L("")}, {Kind: "branch", U: T(1), Branch: L(" b1"), Assign: L("")},
 			{Kind: "branch", U: T(1), Branch: L("b1 "), Assign: L("")}, {Kind: "branch", U: T(1), Branch: L("B1"), Assign: L("")},
-			{Kind: "newversion", U: T(1), Assign: L("")}, {Kind: "branch", U: T(1), Branch: L(strings.Repeat("L", 300)), Assign: L("")}},
+			{Kind: "newversion", U: T(1), Assign: L("")}, {Kind: "branch", U: T(1), Branch: L(strings.Repeat("L", 300)), Assign: L("")},
+			// ... and are reachable by reference under exactly their own spelling
+			{Kind: "note", U: Cat(T(1), L(":\tmaster\n"))}, {Kind: "commit", U: Cat(T(1), L(":\tmaster\n~0"))},
+			{Kind: "note", U: Cat(T(1), L(":master "))}, {Kind: "note", U: Cat(T(1), L(":\tmaster"))},
+			{Kind: "newversion", U: Cat(T(1), L(":\tmaster\n")), Assign: L("")}, {Kind: "commit", U: Cat(P(1, 7), L(": "))}},
 		// one assigned uuid with upper-case hex digits offered at every entry point: the second and
 		// later uses of the same string are duplicates; its lower-case spelling is another uuid
 		{{Kind: "newrepo", Root: sp(L("ABCDEF0123456789ABCDEF0123456789"))}, {Kind: "commit", U: T(1)},
